@@ -1,14 +1,18 @@
 #!/bin/bash
-# tools/test_replay.sh <seed-name> <Cxx>: apply the seeded change, run the check, replay its first replay file
-# on the changed tree (expect exit 1) and on the restored tree (expect exit 0).
+# tools/test_replay.sh <seed-name> <Cxx>: apply the seeded change to a scratch worktree of /repo's HEAD (never to
+# /repo itself), run the check there, replay its first replay file on the changed tree (expect exit 1) and on
+# /repo (expect exit 0).
 seed=$1; p=$2
 cd /verif
-export VERIF_EVID=/tmp/verif_evid_scratch; mkdir -p $VERIF_EVID
-git -C /repo apply /verif/seeded/$seed/patch.diff || exit 2
-out=$(./check $p 2>&1)
+wt=$(mktemp -d /tmp/rpwt.XXXXXX); rmdir "$wt"
+ev=/tmp/verif_evid_scratch_$$; mkdir -p $ev
+git -C /repo worktree add --detach "$wt" HEAD -q || exit 2
+trap 'git -C /repo worktree remove --force "$wt" >/dev/null 2>&1; git -C /repo worktree prune; rm -rf $ev' EXIT
+git -C "$wt" apply /verif/seeded/$seed/patch.diff || exit 2
+out=$(VERIF_REPO=$wt VERIF_EVID=$ev ./check $p 2>&1)
 f=$(echo "$out" | grep -o 'replay=[^ ]*' | head -1 | cut -d= -f2)
-cp "$f" /tmp/replay_test.json
-./check $p --replay /tmp/replay_test.json > /tmp/replay_with.txt 2>&1; a=$?
-git -C /repo checkout -- .
-./check $p --replay /tmp/replay_test.json > /tmp/replay_without.txt 2>&1; b=$?
-echo "$seed $p: replay on changed tree exit=$a, on restored tree exit=$b"
+if [ -z "$f" ]; then echo "$seed $p: NOT DETECTED (no VIOLATION line)"; exit 1; fi
+VERIF_REPO=$wt VERIF_EVID=$ev ./check $p --replay "$f" > $ev/with.txt 2>&1; a=$?
+VERIF_EVID=$ev ./check $p --replay "$f" > $ev/without.txt 2>&1; b=$?
+echo "$seed $p: replay on changed tree exit=$a, on unchanged tree exit=$b"
+[ $a = 1 ] && [ $b = 0 ]
